@@ -80,12 +80,14 @@ def w_tld(exe, domains, src):
     part = new_part()
     cnt = part["counters"]
     mdl = _model.Model()
-    lines = [driver.A_line(b"x@" + d, sections=3, tlds=2, allow=mdl.all_bits) for d in domains]
+    # the classification must not depend on the local part: rotate through shapes with dots, quotes and '@'
+    lps = [b"x", b"first.last", b'"a.b"', b"a.b.c.d", b'"q@r.st"', b"a-b_c+d", b"x.y"]
+    lines = [driver.A_line(lps[i % len(lps)] + b"@" + d, sections=3, tlds=2, allow=mdl.all_bits) for i, d in enumerate(domains)]
     recs, crashes = driver.run_lines_resilient(exe, lines)
     for idx, sig, err in crashes:
         d = domains[idx] if idx >= 0 else b""
         part["viol"].append(("crash/%s" % sig, {"domain": core.b2s(d)}, {"stderr": err[-1500:]}))
-    for d, r in zip(domains, recs):
+    for di, (d, r) in enumerate(zip(domains, recs)):
         if r is None:
             continue
         if not OD.host_accepts(d) or d.endswith(b"."):
@@ -112,7 +114,7 @@ def w_tld(exe, domains, src):
             if got != (exp_rc, exp_ret, exp_err):
                 gcls = mdl.tldtype_name.get(l[3], "rc%d" % l[3]) if l[3] > 0 else mdl.eeav_name.get(-l[3], l[3])
                 part["viol"].append(("class/%s-expected-%s-got-%s" % (m, cls, str(gcls).replace("EEAV_", "")),
-                                     {"domain": core.b2s(d), "mode": m},
+                                     {"domain": core.b2s(d), "mode": m, "address": core.b2s(lps[di % len(lps)] + b"@" + d)},
                                      {"rc": l[3], "ret": h[0], "errcode": h[1], "expected": [exp_rc, exp_ret, exp_err],
                                       "source": src}))
     part["distinct"] = len(set(domains))
